@@ -742,6 +742,69 @@ func runC14(e *sim.Env) {
 			tb = gen.NewTxBuilder(e, tip.L)
 			tb.OrderSafe, tb.UsedEnds, tb.Strict = true, tree.UsedEnds, genStrict
 			e.Shape("block", fmt.Sprint(partial))
+			if !partial && len(bt)+len(bv) > 0 && e.Chance(1, 3) {
+				// the block is reorganised away again (empty blocks on its
+				// parent); what it had confirmed is then submitted once more:
+				// whatever the answer, "known" means pooled
+				// (2-12 of them: the more leaves the accumulator gains, the more of
+				// the proofs the reverted transactions carry go stale)
+				parent := n.Parent
+				x := parent
+				var fork []*gen.Node
+				for k, kk := 0, e.Range(2, 12); k < kk; k++ {
+					x = tree.Extend(e, x, gen.BlockOpts{Now: now, Miner: types.VoidAddress})
+					fork = append(fork, x)
+				}
+				if e.Chance(1, 2) {
+					// ... up to the next power of two of the accumulator's size, where
+					// every tree of the forest merges and every older proof grows
+					pow := uint64(1)
+					for pow <= parent.L.State.Elements.NumLeaves {
+						pow *= 2
+					}
+					for k := 0; k < 80 && x.L.State.Elements.NumLeaves < pow; k++ {
+						x = tree.Extend(e, x, gen.BlockOpts{Now: now, Miner: types.VoidAddress})
+						fork = append(fork, x)
+					}
+				}
+				if err := s.cm.AddBlocks(blocksOf(fork)); err != nil {
+					e.Violationf("C14.valid-accepted", "reorg", "two empty blocks on the parent of the tip were rejected: %v", err)
+				}
+				if s.cm.Tip() == x.Index() {
+					tip = x
+					tb = gen.NewTxBuilder(e, tip.L)
+					tb.OrderSafe, tb.UsedEnds, tb.Strict = true, tree.UsedEnds, genStrict
+					// one at a time, parents first (some may have expired with the
+					// new height: those are refused and not judged)
+					known1, err1 := make([]bool, len(bt)), make([]error, len(bt))
+					known2, err2 := make([]bool, len(bv)), make([]error, len(bv))
+					basis := parent.Index()
+					e.Guard("C14.panic", "resubmission after a reorg", func() {
+						for i := range bt {
+							known1[i], err1[i] = s.cm.AddPoolTransactions([]types.Transaction{bt[i]})
+						}
+						for i := range bv {
+							known2[i], err2[i] = s.cm.AddV2PoolTransactions(basis, []types.V2Transaction{bv[i].DeepCopy()})
+						}
+					})
+					now2 := snapPool(e, "C14", s.cm)
+					e.Logf("block reorganised away (%d blocks instead); its %d+%d transactions submitted again one by one -> v1 known=%v, v2 known=%v; pool %d", len(fork), len(bt), len(bv), known1, known2, len(now2.ids))
+					for i, t := range bt {
+						if _, in := now2.ids[t.ID()]; !in && err1[i] == nil {
+							e.Violationf("C14.known-flag", fmt.Sprintf("after-reorg:v1:known=%v", known1[i]), "after the block that had confirmed it was reorganised away, v1 transaction %v was submitted again: known=%v, no error, yet the pool does not hold it", t.ID(), known1[i])
+						}
+					}
+					for i, t := range bv {
+						if _, in := now2.ids[t.ID()]; !in && err2[i] == nil {
+							e.Violationf("C14.known-flag", fmt.Sprintf("after-reorg:v2:known=%v", known2[i]), "after the block that had confirmed it was reorganised away, v2 transaction %v was submitted again: known=%v, no error, yet the pool does not hold it", t.ID(), known2[i])
+						}
+					}
+					e.Fault("confirming-block-reorganised-away")
+					e.Nontrivial = true
+					lookups("after a reorg")
+				}
+				continue
+			}
 			if partial && e.Chance(1, 3) {
 				// the first pool call after the block is a lookup by id of a
 				// transaction the block left in the pool: if the listing that
@@ -808,7 +871,7 @@ func kindOr(k string) string {
 func init() {
 	register(&Prop{
 		ID: "C14", Run: runC14, Quick: 1200, Thorough: 30000, Level: "exploration",
-		Rule:        "one run = drawn network and chain, then 6-24 pool submissions (v1 or v2 sets of 1-4 possibly dependent transactions: fresh / partly known / conflicting with the pool at a drawn position / invalid at a drawn position / all known) with lookups of every pooled v1 id, v2 id and unknown ids on both lookup functions, TransactionsForPartialBlock for a drawn subset of leaf hashes, agreement of listing and lookup, mutation and reordering of returned values and of the caller's own transactions after each call, and an occasional block assembled from the whole reported pool or a drawn prefix of it, after which the next call is a listing, a lookup by id of a transaction the block left pooled, or directly the next submission, so that the submission itself is the call that revalidates the pool; 1 run in 12 instead fills the pool to its weight limit with ~0.9-block-weight transactions and then submits back to back (no query between) a fresh heavy transaction and an already pooled one: known=true means pooled afterwards; distinct = abstract trace of (mode, version, error, known); non-trivial = at least one non-fresh set",
+		Rule:        "one run = drawn network and chain, then 6-24 pool submissions (v1 or v2 sets of 1-4 possibly dependent transactions: fresh / partly known / conflicting with the pool at a drawn position / invalid at a drawn position / all known) with lookups of every pooled v1 id, v2 id and unknown ids on both lookup functions, TransactionsForPartialBlock for a drawn subset of leaf hashes, agreement of listing and lookup, mutation and reordering of returned values and of the caller's own transactions after each call, and an occasional block assembled from the whole reported pool or a drawn prefix of it, after which the block may be reorganised away again and its transactions submitted once more (known means pooled), or the next call is a listing, a lookup by id of a transaction the block left pooled, or directly the next submission, so that the submission itself is the call that revalidates the pool; 1 run in 12 instead fills the pool to its weight limit with ~0.9-block-weight transactions and then submits back to back (no query between) a fresh heavy transaction and an already pooled one: known=true means pooled afterwards; distinct = abstract trace of (mode, version, error, known); non-trivial = at least one non-fresh set",
 		Real:        []string{"chain.Manager (pool)", "chain.DBStore"},
 		Stub:        []string{"disk: simdisk.DB"},
 		Assumptions: []string{"pool contents are observed through PoolTransactions / V2PoolTransactions before and after each call"},
